@@ -10,6 +10,7 @@ alphabets; TLC validates every recorded call, request and outcome against the ma
 import concurrent.futures as cf
 import json
 import os
+import random
 import threading
 
 import vlib
@@ -76,6 +77,10 @@ def export(ctx, cfg, what):
     scen, r = tlc_retry(once)
     if not scen:
         raise vlib.Machinery('TLC exported no scripts from %s' % cfg)
+    # TLC's workers print in any order: fix the order (the harness rotates the page sizes by position)
+    # and spread the operations over the validation shards
+    scen.sort(key=lambda s: json.dumps(s, sort_keys=True))
+    random.Random(ctx.seed).shuffle(scen)
     ctx.cov['states'] += r['distinct']
     ctx.cov['transitions'] += r['generated']
     ctx.cov['model_runs'].append(dict(module='OciClientFaultsMC.tla', cfg=cfg, distinct=r['distinct'], generated=r['generated'], depth=r.get('depth'),
@@ -283,7 +288,7 @@ def run(ctx):
     if res['scenarios'] != len(scen) and res.get('timeouts', 0) < 5:
         raise vlib.Machinery('harness executed %d of %d scripts' % (res['scenarios'], len(scen)))
     traces.append(t0)
-    nrand = 2500 if quick else 60000
+    nrand = 2500 if quick else 40000
     per = 30000
     i = 0
     while nrand > 0:
